@@ -180,7 +180,7 @@ func (r *Runtime) newPromiseResolveThenableJob(p *Promise, thenable Value, then 
 		})
 		if ex != nil {
 			if fn, ok := reject.self.assertCallable(); ok {
-				fn(FunctionCall{Arguments: []Value{ex.val}})
+				fn(FunctionCall{This: _undefined, Arguments: []Value{ex.val}})
 			}
 		}
 	}
@@ -259,11 +259,11 @@ func (r *Runtime) builtin_newPromise(args []Value, newTarget *Object) *Object {
 
 	resolve, reject := po.createResolvingFunctions()
 	ex := r.vm.try(func() {
-		executor(FunctionCall{Arguments: []Value{resolve, reject}})
+		executor(FunctionCall{This: _undefined, Arguments: []Value{resolve, reject}})
 	})
 	if ex != nil {
 		if fn, ok := reject.self.assertCallable(); ok {
-			fn(FunctionCall{Arguments: []Value{ex.val}})
+			fn(FunctionCall{This: _undefined, Arguments: []Value{ex.val}})
 		}
 	}
 	return po.val
@@ -384,11 +384,11 @@ func (r *Runtime) promiseProto_finally(call FunctionCall) Value {
 }
 
 func (pcap *promiseCapability) resolve(result Value) {
-	pcap.promise.runtime.toCallable(pcap.resolveObj)(FunctionCall{Arguments: []Value{result}})
+	pcap.promise.runtime.toCallable(pcap.resolveObj)(FunctionCall{This: _undefined, Arguments: []Value{result}})
 }
 
 func (pcap *promiseCapability) reject(reason Value) {
-	pcap.promise.runtime.toCallable(pcap.rejectObj)(FunctionCall{Arguments: []Value{reason}})
+	pcap.promise.runtime.toCallable(pcap.rejectObj)(FunctionCall{This: _undefined, Arguments: []Value{reason}})
 }
 
 func (pcap *promiseCapability) try(f func()) bool {
